@@ -139,6 +139,21 @@ pub fn check_pair(a: &[&str], b: &[&str]) -> Vec<Finding> {
             (Some(_), false) => bad.push(("without-some".into(), format!("{:?}.without({:?}) is Some but not a subdomain", a, b))),
             (None, true) => bad.push(("without-none".into(), format!("{:?}.without({:?}) is None but is a subdomain", a, b))),
         }
+        // the From conversions build the same name as new_with_labels
+        {
+            let ls: Vec<Label> = a.iter().map(|l| Label::new_unchecked(l.as_bytes().to_vec())).collect();
+            let from_slice = Name::from(&ls[..]);
+            if from_slice != na || from_slice.to_string() != na.to_string() {
+                bad.push(("from-slice".into(), format!("Name::from(&[Label]) of {:?} differs from new_with_labels", a)));
+            }
+            if a.len() == 2 {
+                let arr = [Label::new_unchecked(a[0].as_bytes().to_vec()), Label::new_unchecked(a[1].as_bytes().to_vec())];
+                let from_arr = Name::from(arr);
+                if from_arr != na {
+                    bad.push(("from-array".into(), format!("Name::from([Label; 2]) of {:?} differs from new_with_labels", a)));
+                }
+            }
+        }
         let eq = na == nb;
         if eq != (a == b) {
             bad.push(("eq".into(), format!("{:?} == {:?} gives {}", a, b, eq)));
